@@ -1158,6 +1158,9 @@ func TestC11(t *testing.T) {
 	c11Alloc(t, rep, orc, rng.Fork(), env)
 	t1 := time.Now()
 	c11F11(t, rep, orc)
+	// public entry points over the seam: while a UDP / TCP run is live its source port stays reserved
+	// (the port is one of the identifiers that separate concurrent runs)
+	runLevelStream(t, rep, rng.Fork(), env.Scale(80, 800))
 	c11Isolation(t, rep, orc, rng.Fork(), env)
 	rep.Note("wall: allocators %.1fs, isolation+f11 %.1fs", t1.Sub(t0).Seconds(), time.Since(t1).Seconds())
 	c11ExtraWireIDs(t, rep, rng.Fork(), env)
